@@ -141,7 +141,8 @@ def check_case(case, ctx):
             return
         if not case['c_reuse']:
             lo, cap = int(gref.c_locs[gref.tmp_idx]), int(gref.c_caps[gref.tmp_idx])
-            ga, gb = np.asarray(g.c).copy(), np.asarray(gref.c).copy()
+            # only the rows below c_len are signal memory; a buffer may be allocated larger (padding)
+            ga, gb = np.asarray(g.c)[:int(g.c_len)].copy(), np.asarray(gref.c)[:int(gref.c_len)].copy()
             ga[lo:lo + cap] = 0
             gb[lo:lo + cap] = 0
             if not eq('gpu_memory', ga, gb, 'signal memories of WaveSim and WaveSimCuda'):
